@@ -23,12 +23,16 @@ func TestMain(m *testing.M) { kit.Main(m, "C20") }
 type Step struct {
 	Conn int     `json:"conn"`
 	Cmd  kit.Cmd `json:"cmd"`
+	// Raw: instead of a command, these bytes (a malformed frame) are written to the connection
+	Raw kit.B `json:"raw,omitempty"`
 }
 
 type Case struct {
 	Databases int    `json:"databases"`
 	Conns     int    `json:"conns"`
 	Steps     []Step `json:"steps"`
+	// Pipe: consecutive steps of one connection leave in a single write (a pipelining client)
+	Pipe bool `json:"pipe,omitempty"`
 }
 
 var servers = map[int]*srv.Server{}
@@ -58,11 +62,25 @@ func stopAll() {
 var pool = []string{"k", "K", "shared"}
 
 func genCase(t *rapid.T) Case {
-	c := Case{Databases: rapid.SampledFrom([]int{1, 2, 16}).Draw(t, "databases"), Conns: rapid.IntRange(2, 5).Draw(t, "conns")}
+	c := Case{Databases: rapid.SampledFrom([]int{1, 2, 16}).Draw(t, "databases"), Conns: rapid.IntRange(2, 5).Draw(t, "conns"), Pipe: rapid.IntRange(0, 2).Draw(t, "pipe") == 0}
 	n := rapid.SampledFrom([]int{4, 10, 25, 50}).Draw(t, "len")
 	N := c.Databases
+	conn := 0
+	garbageAt := -1
+	if rapid.IntRange(0, 3).Draw(t, "garbage") == 0 {
+		garbageAt = rapid.IntRange(1, n).Draw(t, "garbageat") - 1
+	}
 	for i := 0; i < n; i++ {
-		conn := rapid.IntRange(0, c.Conns-1).Draw(t, "conn")
+		// runs of steps on one connection (a pipelining client sends such a run in one write)
+		if i == 0 || rapid.IntRange(0, 2).Draw(t, "switch") == 0 {
+			conn = rapid.IntRange(0, c.Conns-1).Draw(t, "conn")
+		}
+		if garbageAt == i {
+			// a malformed frame: the server answers with an error or closes the connection; a connection that
+			// survives keeps its selection
+			c.Steps = append(c.Steps, Step{Conn: conn, Raw: kit.B(gen.Pick(t, "raw", "*x\r\n", "$abc\r\n", "*1\r\n$x\r\n", "*-5\r\n", "?\r\n"))})
+			continue
+		}
 		k := rapid.SampledFrom(pool).Draw(t, "key")
 		var cmd kit.Cmd
 		switch gen.Weighted(t, "op", []int{8, 6, 8, 2, 2, 2, 2, 1, 3, 3, 2, 2}) {
@@ -155,52 +173,120 @@ func exec(c Case) kit.Outcome {
 	sel := make([]int, c.Conns)
 	o := kit.Outcome{}
 	used := map[string]map[int]bool{}
-	for i, st := range c.Steps {
-		name := strings.ToLower(string(st.Cmd[0]))
-		var want model.Reply
-		if name == "select" {
-			want = model.Err()
-			if len(st.Cmd) == 2 {
-				arg := string(st.Cmd[1])
-				n, perr := strconv.Atoi(arg)
-				strict := perr == nil && strconv.Itoa(n) == arg
-				switch {
-				case strict && n >= 0 && n < c.Databases:
-					want = model.OK()
-					sel[st.Conn] = n
-				case perr == nil && !strict:
-					want = model.Unspecified("integer spelling")
+	redial := func(ci int) string {
+		conns[ci].Close()
+		nc, err := s.Dial()
+		if err != nil {
+			return "infrastructure: " + err.Error()
+		}
+		conns[ci] = nc
+		sel[ci] = 0
+		return ""
+	}
+	for i := 0; i < len(c.Steps); {
+		st := c.Steps[i]
+		if len(st.Raw) > 0 {
+			// malformed frame, then a PING with a nonce: the connection either answers (possibly after an error
+			// reply) - it lives on and keeps its selection - or is closed, and the client connects again (database 0)
+			o.Labels = append(o.Labels, "malformed-frame")
+			nonce := fmt.Sprintf("alive-%d", i)
+			_ = conns[st.Conn].Write(append(append([]byte{}, st.Raw...), respx.EncodeCommand([][]byte{[]byte("PING"), []byte(nonce)})...), 2*time.Second)
+			alive := false
+			for k := 0; k < 4; k++ {
+				v, err := conns[st.Conn].Read(400 * time.Millisecond)
+				if err != nil {
+					break
+				}
+				if v.Kind == respx.Bulk && string(v.Str) == nonce {
+					alive = true
+					break
 				}
 			}
-		} else {
-			want = dbs[sel[st.Conn]].Exec(st.Cmd.Bytes(), time.Now().Unix())
-			if len(st.Cmd) > 1 {
-				k := string(st.Cmd[1])
-				if used[k] == nil {
-					used[k] = map[int]bool{}
+			if !alive {
+				if s.WaitExit(300 * time.Millisecond) {
+					o.Fail = fmt.Sprintf("step %d conn %d: server died on a malformed frame %q: %.300s", i, st.Conn, []byte(st.Raw), s.CrashReport())
+					return o
 				}
-				used[k][sel[st.Conn]] = true
-				if len(used[k]) >= 2 {
-					o.NonTrivial = true
+				if msg := redial(st.Conn); msg != "" {
+					return kit.Outcome{Fail: msg}
 				}
+				o.Labels = append(o.Labels, "connection-closed-on-malformed-frame")
+			} else {
+				o.Labels = append(o.Labels, "connection-survived-malformed-frame")
+			}
+			i++
+			continue
+		}
+		// the group of steps that leave in one write
+		j := i + 1
+		if c.Pipe {
+			for j < len(c.Steps) && c.Steps[j].Conn == st.Conn && len(c.Steps[j].Raw) == 0 {
+				j++
 			}
 		}
-		got, err := conns[st.Conn].Do(3*time.Second, st.Cmd.Bytes()...)
-		if err != nil {
-			if s.WaitExit(500 * time.Millisecond) {
-				o.Fail = fmt.Sprintf("step %d conn %d %s: server died: %.300s", i, st.Conn, st.Cmd.String(), s.CrashReport())
+		var wire []byte
+		for _, g := range c.Steps[i:j] {
+			wire = append(wire, respx.EncodeCommand(g.Cmd.Bytes())...)
+		}
+		if j-i > 1 {
+			o.Labels = append(o.Labels, "pipelined-run")
+		}
+		if err := conns[st.Conn].Write(wire, 3*time.Second); err != nil {
+			o.Fail = fmt.Sprintf("step %d conn %d: write failed: %v", i, st.Conn, err)
+			return o
+		}
+		for gi := i; gi < j; gi++ {
+			st := c.Steps[gi]
+			name := strings.ToLower(string(st.Cmd[0]))
+			var want model.Reply
+			if name == "select" {
+				want = model.Err()
+				if len(st.Cmd) == 2 {
+					arg := string(st.Cmd[1])
+					n, perr := strconv.Atoi(arg)
+					strict := perr == nil && strconv.Itoa(n) == arg
+					switch {
+					case strict && n >= 0 && n < c.Databases:
+						want = model.OK()
+						sel[st.Conn] = n
+						if gi > i {
+							o.Labels = append(o.Labels, "select-inside-a-pipelined-run")
+						}
+					case perr == nil && !strict:
+						want = model.Unspecified("integer spelling")
+					}
+				}
+			} else {
+				want = dbs[sel[st.Conn]].Exec(st.Cmd.Bytes(), time.Now().Unix())
+				if len(st.Cmd) > 1 {
+					k := string(st.Cmd[1])
+					if used[k] == nil {
+						used[k] = map[int]bool{}
+					}
+					used[k][sel[st.Conn]] = true
+					if len(used[k]) >= 2 {
+						o.NonTrivial = true
+					}
+				}
+			}
+			got, err := conns[st.Conn].Read(3 * time.Second)
+			if err != nil {
+				if s.WaitExit(500 * time.Millisecond) {
+					o.Fail = fmt.Sprintf("step %d conn %d %s: server died: %.300s", gi, st.Conn, st.Cmd.String(), s.CrashReport())
+					return o
+				}
+				o.Fail = fmt.Sprintf("step %d conn %d %s: %v", gi, st.Conn, st.Cmd.String(), err)
 				return o
 			}
-			o.Fail = fmt.Sprintf("step %d conn %d %s: %v", i, st.Conn, st.Cmd.String(), err)
-			return o
+			if want.T == '?' {
+				return o
+			}
+			if err := model.Match(want, got); err != nil {
+				o.Fail = fmt.Sprintf("step %d conn %d (selected db %d of %d%s) %s: %v", gi, st.Conn, sel[st.Conn], c.Databases, map[bool]string{true: ", inside a pipelined run", false: ""}[j-i > 1], st.Cmd.String(), err)
+				return o
+			}
 		}
-		if want.T == '?' {
-			break
-		}
-		if err := model.Match(want, got); err != nil {
-			o.Fail = fmt.Sprintf("step %d conn %d (selected db %d of %d) %s: %v", i, st.Conn, sel[st.Conn], c.Databases, st.Cmd.String(), err)
-			return o
-		}
+		i = j
 	}
 	return o
 }
@@ -276,5 +362,5 @@ func TestConcurrent(t *testing.T) {
 
 func TestReplay(t *testing.T) {
 	defer stopAll()
-	kit.Replay[Case](t, map[string]func(kit.RawCase) kit.Outcome{"seq": kit.ReplaySub(exec), "conc": kit.ReplaySub(execConcurrent)})
+	kit.Replay[Case](t, map[string]func(kit.RawCase) kit.Outcome{"seq": kit.ReplaySub(exec), "conc": kit.ReplaySub(execConcurrent), "firstsel": kit.ReplaySub(execFirstSelect), "block": kit.ReplaySub(execBlock)})
 }
